@@ -12,6 +12,8 @@ import (
 func init() {
 	scans["node-accessors"] = scanNodeAccessors
 	scans["link-field-writers"] = scanLinkFieldWriters
+	scans["write-results-unused"] = scanWriteResultsUnused
+	scans["convert-shape"] = scanConvertShape
 }
 
 func scanObl(name string, ok bool, why string) *Obl {
@@ -121,4 +123,170 @@ func scanLinkFieldWriters(P *Program) []*Obl {
 	}
 	out = append(out, scanObl(fmt.Sprintf("link-field-writers (%d stores, all inside (*ast.BaseNode) methods)", nsites), true, ""))
 	return out
+}
+
+
+// scanWriteResultsUnused: in the renderers no control or data decision depends on the result of a
+// write to the output writer (so the sequence of writes is the same whether or not the writer fails:
+// the bytes accepted before a failure are a prefix of the full output).
+func scanWriteResultsUnused(P *Program) []*Obl {
+	var out []*Obl
+	n := 0
+	for _, fn := range P.allFuncs {
+		pk := fnDisplayName(fn)
+		if !(strings.HasPrefix(pk, "html.") || strings.HasPrefix(pk, "extension.") || strings.HasPrefix(pk, "renderer.")) {
+			continue
+		}
+		for _, b := range fn.Blocks {
+			for _, in := range b.Instrs {
+				c, ok := in.(*ssa.Call)
+				if !ok || !c.Common().IsInvoke() {
+					continue
+				}
+				m := c.Common().Method.Name()
+				if m != "Write" && m != "WriteString" && m != "WriteByte" && m != "WriteRune" {
+					continue
+				}
+				tn := typeName(c.Common().Value.Type())
+				if tn != "util.BufWriter" && tn != "io.Writer" {
+					continue
+				}
+				n++
+				used := false
+				if refs := c.Referrers(); refs != nil {
+					for _, r := range *refs {
+						if ex, ok := r.(*ssa.Extract); ok {
+							if rr := ex.Referrers(); rr == nil || len(*rr) == 0 {
+								continue
+							}
+						}
+						if _, ok := r.(*ssa.DebugRef); ok {
+							continue
+						}
+						used = true
+					}
+				}
+				if used {
+					out = append(out, scanObl("write-results-unused:"+fnDisplayName(fn)+":"+m, false,
+						fmt.Sprintf("%s uses the result of %s.%s at %s", fnDisplayName(fn), tn, m, P.fset.Position(c.Pos()))))
+				}
+			}
+		}
+	}
+	out = append(out, scanObl(fmt.Sprintf("write-results-unused (%d write calls in renderer, renderer/html, extension)", n), true, ""))
+	return out
+}
+
+// scanConvertShape: (*markdown).Convert is literally NewReader(source); Parse; return Render(writer, source, doc).
+func scanConvertShape(P *Program) []*Obl {
+	var fn *ssa.Function
+	for _, f := range P.allFuncs {
+		if fnDisplayName(f) == "goldmark.(*markdown).Convert" {
+			fn = f
+		}
+	}
+	if fn == nil {
+		return []*Obl{scanObl("convert-shape", false, "(*markdown).Convert not found")}
+	}
+	var calls []*ssa.Call
+	var ret *ssa.Return
+	for _, b := range fn.Blocks {
+		for _, in := range b.Instrs {
+			switch x := in.(type) {
+			case *ssa.Call:
+				if _, isB := x.Common().Value.(*ssa.Builtin); !isB {
+					calls = append(calls, x)
+				}
+			case *ssa.Return:
+				ret = x
+			}
+		}
+	}
+	fail := func(why string) []*Obl { return []*Obl{scanObl("convert-shape", false, why)} }
+	if len(fn.Blocks) != 1 || len(calls) != 3 || ret == nil || len(ret.Results) != 1 {
+		return fail("Convert is no longer a straight line of three calls and one return")
+	}
+	c0, c1, c2 := calls[0].Common(), calls[1].Common(), calls[2].Common()
+	if f, ok := c0.Value.(*ssa.Function); !ok || f.Name() != "NewReader" {
+		return fail("first call is not text.NewReader")
+	}
+	if !c1.IsInvoke() || c1.Method.Name() != "Parse" || len(c1.Args) < 1 || !flowsFrom(c1.Args[0], calls[0]) {
+		return fail("second call is not parser.Parse(reader, ...)")
+	}
+	if !c2.IsInvoke() || c2.Method.Name() != "Render" || len(c2.Args) != 3 || !flowsFrom(c2.Args[2], calls[1]) {
+		return fail("third call is not renderer.Render(writer, source, doc)")
+	}
+	if !flowsFrom(ret.Results[0], calls[2]) {
+		return fail("Convert does not return Render's result")
+	}
+	if !isParamLoad(c2.Args[0], "writer") || !isParamLoad(c2.Args[1], "source") {
+		return fail("Render is not called with Convert's own writer and source")
+	}
+	return []*Obl{scanObl("convert-shape (Convert = NewReader; Parse; return Render(writer, source, doc))", true, "")}
+}
+
+// flowsFrom: v is the value of instruction src, possibly through a local variable (NaiveForm) or a type change.
+func flowsFrom(v ssa.Value, src ssa.Value) bool {
+	for i := 0; i < 6; i++ {
+		if v == src {
+			return true
+		}
+		switch x := v.(type) {
+		case *ssa.ChangeInterface:
+			v = x.X
+		case *ssa.ChangeType:
+			v = x.X
+		case *ssa.MakeInterface:
+			v = x.X
+		case *ssa.UnOp: // load of a local that is stored exactly once
+			a, ok := x.X.(*ssa.Alloc)
+			if !ok {
+				return false
+			}
+			var st *ssa.Store
+			n := 0
+			for _, r := range *a.Referrers() {
+				if s, ok := r.(*ssa.Store); ok && s.Addr == a {
+					st = s
+					n++
+				}
+			}
+			if n != 1 {
+				return false
+			}
+			v = st.Val
+		default:
+			return false
+		}
+	}
+	return false
+}
+
+func isParamLoad(v ssa.Value, name string) bool {
+	for i := 0; i < 4; i++ {
+		switch x := v.(type) {
+		case *ssa.Parameter:
+			return x.Name() == name
+		case *ssa.UnOp:
+			a, ok := x.X.(*ssa.Alloc)
+			if !ok {
+				return false
+			}
+			n := 0
+			var st *ssa.Store
+			for _, r := range *a.Referrers() {
+				if s, ok := r.(*ssa.Store); ok && s.Addr == a {
+					st = s
+					n++
+				}
+			}
+			if n != 1 {
+				return false
+			}
+			v = st.Val
+		default:
+			return false
+		}
+	}
+	return false
 }
